@@ -73,9 +73,9 @@ url_utf8_validate(void *arg)
 			if ((s[0] & 0xc0u) != 0x80) {
 				return (NNG_EINVAL); // not continuation
 			}
-			s++;
 			v <<= 6u;
 			v += s[0] & 0x3fu;
+			s++;
 		}
 		if (v < minv) {
 			return (NNG_EINVAL);
